@@ -106,7 +106,7 @@ def _spellings(case, out, stats):
             with quiet():
                 try:
                     v0 = cells(*args)
-                except Exception:
+                except BaseException:      # noqa: BLE001 (generated formulas raise KeyboardInterrupt too)
                     continue
                 impl.log = []
                 keys0 = set(cells._impl.data)
@@ -123,7 +123,7 @@ def _spellings(case, out, stats):
                 for nm, f in forms.items():
                     try:
                         v = f()
-                    except Exception as e:
+                    except BaseException as e:      # noqa: BLE001 (generated formulas raise KeyboardInterrupt too)
                         out.fail("spelling %s of c%d%r raised %r" % (nm, c["id"], args, e), X.case_json(case))
                         continue
                     stats["spellings_checked"] += 1
@@ -179,7 +179,7 @@ def name_resolution(out, stats):
                              ("k", lambda: s.k()), ("b", lambda: s.b())):
                 try:
                     got[nm] = call()
-                except Exception as e:
+                except BaseException as e:      # noqa: BLE001 (generated formulas raise KeyboardInterrupt too)
                     got[nm] = "error %s" % type(e).__name__
             want = {"g": 3, "h": 1, "j": 5, "k": 7, "b": 3}
             stats["name_resolution_scenarios"] += 1
